@@ -181,6 +181,10 @@ class MessageSigner(object):
         if hasattr(key, "public_pair"):
             return bool(key.public_pair() == pair)
         else:
+            # an address stands for a public key only in its pay-to-pubkey-hash forms: the 20 bytes
+            # of a pay-to-script-hash address are the hash of a script, not of a key
+            if key.info().get("type") not in ("p2pkh", "p2pkh_wit"):
+                return False
             key_hash160 = key.hash160()
             pair_hash160 = public_pair_to_hash160_sec(pair, compressed=is_compressed)
             return bool(key_hash160 == pair_hash160)
